@@ -46,10 +46,13 @@ int main(int argc, char **argv)
             for (uint64_t i = 0; i < n; i++)
                 if ((src[3 * i] % vh::PRIME) == 0 && (src[3 * i + 1] % vh::PRIME) == 0 && (src[3 * i + 2] % vh::PRIME) == 0)
                     src[3 * i] = 1;
-            Goldilocks3::batchInverse((E3 *)res.data(), (E3 *)src.data(), n);
-            // also in place
+            int env = c.size() > 3 ? atoi(c[3].c_str()) : 0;
             std::vector<uint64_t> inpl(src);
-            Goldilocks3::batchInverse((E3 *)inpl.data(), (E3 *)inpl.data(), n);
+            vh::with_env(env, [&]() {
+                Goldilocks3::batchInverse((E3 *)res.data(), (E3 *)src.data(), n);
+                // also in place
+                Goldilocks3::batchInverse((E3 *)inpl.data(), (E3 *)inpl.data(), n);
+            });
             o->begin("binv");
             o->num("ci", ci);
             o->num("n", n);
@@ -57,6 +60,38 @@ int main(int argc, char **argv)
             o->w64arr("res", res.data(), 3 * n);
             o->boolean("inplace_same", inpl == res);
             o->end();
+            continue;
+        }
+        if (op == "chain")
+        {
+            // chain <op> <k> a0 a1 a2 b0 b1 b2 : x = a; k times x = op(x) / op(x, b) / op(b, x) with the result written over
+            // the operand it replaces; every step is an ordinary c3 event on the value the step started from
+            const std::string &f = c[1];
+            int k = atoi(c[2].c_str());
+            uint64_t x[3] = {vh::parse_u64(c[3]), vh::parse_u64(c[4]), vh::parse_u64(c[5])};
+            uint64_t b[3] = {vh::parse_u64(c[6]), vh::parse_u64(c[7]), vh::parse_u64(c[8])};
+            E3 X, B;
+            set3(X, x);
+            set3(B, b);
+            for (int s = 0; s < k; s++)
+            {
+                uint64_t before[3] = {X[0].fe, X[1].fe, X[2].fe};
+                if (f == "inv") Goldilocks3::inv(X, X);
+                else if (f == "neg") Goldilocks3::neg(X, X);
+                else if (f == "square") Goldilocks3::square(X, X);
+                else if (f == "mul") Goldilocks3::mul(X, X, B);
+                else if (f == "add") Goldilocks3::add(X, X, B);
+                else if (f == "sub") Goldilocks3::sub(X, X, B);
+                else if (f == "rmul") Goldilocks3::mul(X, B, X);
+                else if (f == "rsub") Goldilocks3::sub(X, B, X);
+                bool un = f == "inv" || f == "neg" || f == "square";
+                bool rev = f == "rmul" || f == "rsub";
+                const char *name = f == "rmul" ? "mul" : (f == "rsub" ? "sub" : f.c_str());
+                if (rev)
+                    ev(name, "chain out=b", b, before, 3, X);
+                else
+                    ev(name, "chain out=a", before, b, un ? 0 : 3, X);
+            }
             continue;
         }
         uint64_t a[3] = {vh::parse_u64(c[1]), vh::parse_u64(c[2]), vh::parse_u64(c[3])};
